@@ -5,6 +5,7 @@ import ast
 import re
 
 from ..cfg import CFG
+from ..core import ordkey
 from .. import logic
 from ..core import (AnalysisError, DefRef, NotConst, Ref, call_name, calls_in, dotted, enclosing_conditions, expand_aliases, func_params, get_kw, norm,
                     qualname_of, single_assign_aliases, walk_no_nested)
@@ -224,7 +225,7 @@ def run(ctx):
     ccfg = CFG(cl)
     fcall = next((c for c in calls_in(cl) if norm(c.func) in ("self.flush", "self.tx_cycle")), None)
     ccall = next((c for c in calls_in(cl) if norm(c.func) == "self.con.close"), None)
-    ok = fcall is not None and ccall is not None and fcall.lineno < ccall.lineno and enclosing_conditions(fcall, cl) == enclosing_conditions(ccall, cl) == [("self.con", True)]
+    ok = fcall is not None and ccall is not None and ordkey(fcall) < ordkey(ccall) and enclosing_conditions(fcall, cl) == enclosing_conditions(ccall, cl) == [("self.con", True)]
     cleared = any(isinstance(st, ast.Assign) and norm(st.targets[0]) == "self.con" and isinstance(st.value, ast.Constant) and st.value.value is None for st in walk_no_nested(cl))
     ctx.check(ok and cleared, "R18.3", "SqliteWriter.close:commit-before-close", "close() does not commit (flush) before closing the connection, or does not clear it: the last batch is rolled back",
               cl, "if self.con: flush(); con.close(); self.con = None", key="R18.3:close:commit-before-close")
@@ -269,7 +270,7 @@ def run(ctx):
         for c in seq[1:3]:
             if not (len(c.args) >= 2 and norm(expand_aliases(c.args[1], wal)) == norm(key_e)):
                 order_ok = False
-    order = [norm(c.func) for c in sorted(seq, key=lambda c: (c.lineno, c.col_offset))]
+    order = [norm(c.func) for c in sorted(seq, key=ordkey)]
     ctx.check(order_ok, "R18.4", "write:new-type-sequence", f"new-type handling is {order}{' (missing: ' + str(missing) + ')' if missing else ''}", add,
               " -> ".join(["self.descriptors_seen.add"] + want), key="R18.4:write:new-type-sequence")
     guard = add
